@@ -63,7 +63,18 @@ def gen_history(seed, length=None):
             else:
                 t = r.randint(-lim, lim)
             return [t, unit]
-        ops.append(["alg", r.choice(["add", "sub", "cmp", "hash", "to", "mul", "assoc"]), val(), val(), val(),
+        a_, b_, c_ = val(), val(), val()
+        if r.random() < 0.4:
+            # twins: the same instant (or a 1us neighbour) written in two different units -- the cases in
+            # which a comparison / hash that does not normalise units exactly goes wrong
+            cu = r.choice(["MS", "S"])
+            fu = r.choice([u for u in UNITS if MULT[u] < MULT[cu]])
+            t = r.choice([r.randint(0, 100), r.randint(-100, 1000), r.randint(0, (2 ** 52) // MULT[cu])])
+            a_ = [t, cu]
+            b_ = [t * (MULT[cu] // MULT[fu]) + r.choice([0, 0, 0, 1, -1]), fu]
+            if r.random() < 0.5:
+                a_, b_ = b_, a_
+        ops.append(["alg", r.choice(["add", "sub", "cmp", "cmp", "hash", "to", "mul", "assoc"]), a_, b_, c_,
                     r.choice(UNITS), r.randint(-3, 7)])
     return {"seed": seed, "ops": ops}
 
